@@ -29,7 +29,9 @@ DAYTICKS = 3
 NODATE = -1
 UNRESERVED = set(b'ABCDEFGHIJKLMNOPQRSTUVWXYZabcdefghijklmnopqrstuvwxyz0123456789-._~')
 
-DEEP_PARTS = ['%d-' % i + '\u044b\u0416 ' * 48 for i in range(7)]      # 7 components of 242 bytes: about 5000 characters once encoded
+# components of 242 bytes, 723 characters each once encoded: 7 of them = about 5000 characters, 12 = about 8700 (a legal path of
+# 3000 bytes whose percent-encoding is longer than 8192 characters)
+DEEP_PARTS = ['%d-' % i + '\u044b\u0416 ' * 48 for i in range(12)]
 SHM = '/dev/shm' if os.path.isdir('/dev/shm') else tempfile.gettempdir()
 
 
@@ -128,6 +130,7 @@ class Conc(object):
         self.clock_via_env = rnd.random() < 0.5
         self.xdg_link = rnd.random() < 0.3        # $XDG_DATA_HOME is a symlink to a directory (trash dir reached through a link)
         self.deep = (rnd.random() < 0.1) if deep is None else deep     # the sandbox lives under long non-ASCII directories
+        self.deep_n = random.Random('deepn|%s' % seed).choice([7, 12, 12])
         # --trash-dir on a non-root volume is always given through a symlink that lives on the root volume (every command
         # gets the same spelling): relative Path= values are then relative to the volume of the path as spelled
         self.td_link = (rnd.random() < 0.12) if td_link is None else td_link
@@ -225,7 +228,7 @@ class World(object):
         self.base = tempfile.mkdtemp(prefix='vs-', dir=parent or SHM)
         # a deep sandbox: every absolute path is long and non-ASCII, so that the percent-encoded Path= line of a home-trash
         # entry is several times PATH_MAX/NAME_MAX sized buffers (about 5000 characters) while the path itself is legal
-        self.root = os.path.join(self.base, *(DEEP_PARTS + ['w'])) if getattr(conc, 'deep', False) else os.path.join(self.base, 'w')
+        self.root = os.path.join(self.base, *(DEEP_PARTS[:getattr(conc, 'deep_n', 7)] + ['w'])) if getattr(conc, 'deep', False) else os.path.join(self.base, 'w')
         os.makedirs(self.root)
         self.digest2obj = {}
         self.obj_info = {}
